@@ -16,6 +16,9 @@
 (*   class Box:                 <<8,2>>                                     *)
 (*       c3 = 2                 <<8,6>>   class-level attributes (class     *)
 (*       _c4 = 3                <<8,7>>   body, executed at import)         *)
+(*       c5 = 0                 <<8,10>>  (never read; the last line of a   *)
+(*                                        class body carries the implicit   *)
+(*                                        return of the body)               *)
 (*   def h(x): ...              <<8,3>>   helper functions: their bodies    *)
 (*   def g(y): ...              <<8,4>>   are programs of the same language *)
 (*   def k(x): ...              <<8,8>>   (HelperBody), the lines of helper *)
@@ -146,9 +149,9 @@ ClassVal(f) == IF f = 3 THEN 2 ELSE 3
 
 ModLine(i) == <<8, i>>
 TestPath == <<7, 1>>
-(* instances 1..9 are the module-level definitions executed by the import *)
-NMod == 9
-ModInsts == [i \in 1..NMod |-> [p |-> ModLine(i), d |-> {}, s |-> IF i \in {6, 7} THEN {2} ELSE {}]]
+(* instances 1..10 are the module-level definitions executed by the import *)
+NMod == 10
+ModInsts == [i \in 1..NMod |-> [p |-> ModLine(i), d |-> {}, s |-> IF i \in {6, 7, 10} THEN {2} ELSE {}]]
 ModDef(n) == CASE n = "G" -> {1} [] n = "Box" -> {2} [] n = "h" -> {3} [] n = "g" -> {4} [] n = "f" -> {5}
                [] n = "k" -> {8} [] n = "m" -> {9} [] OTHER -> {}
 
